@@ -53,7 +53,11 @@ def r1_teardown_in_finally(ctx, rep, R='C18.R1'):
     def quiet(node):
         # only the test phase is assumed to raise here
         return 'run_tests' not in norm(node)
-    g = ctx.cfg(fi, AnyCall(quiet_cleanup=True, quiet=quiet))
+    from .common import inlined
+    from sa.cfg import build_cfg
+    runnode = inlined(ctx, fi)
+    g = build_cfg(runnode, ctx.hier, AnyCall(quiet_cleanup=True, quiet=quiet), fi.module,
+                  noreturn=ctx.noreturn_pred(fi), name=fi.qualname)
     rt = nodes_calling(g, lambda c: dotted(c.func) == 'self.run_tests')
     n = 0
     for hook in TEARDOWN_HOOKS:
@@ -78,7 +82,7 @@ def r1_teardown_in_finally(ctx, rep, R='C18.R1'):
             st = g.node(h).ast
             loop = None
             node = st
-            while getattr(node, '_parent', None) is not None and node._parent is not fi.node:
+            while getattr(node, '_parent', None) is not None and node._parent is not runnode:
                 node = node._parent
                 if isinstance(node, ast.For):
                     loop = node
@@ -92,7 +96,7 @@ def r1_teardown_in_finally(ctx, rep, R='C18.R1'):
     rep.floor(R, n, 2, 'teardown call sites')
     # set-up hooks run before the try (a failing set-up is outside the property's scope), and
     # nothing runs the tests outside the protected region
-    tries = [n_ for n_ in ast.walk(fi.node) if isinstance(n_, ast.Try) and n_.finalbody and
+    tries = [n_ for n_ in ast.walk(runnode) if isinstance(n_, ast.Try) and n_.finalbody and
              any('run_tests' in norm(b) for b in n_.body)]
     rep.check(len(tries) == 1, R, 'run_tests is called inside try/finally', 'run_tests is not '
               'protected by a finally', key='try', func=fi.qualname, where=ctx.where(fi, fi.node))
@@ -240,9 +244,10 @@ def r2_save_mutate_restore(ctx, rep, R='C18.R2'):
                           key='rebind:' + sf.qualname, func=sf.qualname, where=ctx.where(sf, sf.node))
     rep.floor(R, n, 6, 'mutation instances in feature set-up hooks')
     # hook names are the ones Runner.run actually invokes
+    from .common import inlined
     fr = m.func('runner.Runner.run')
-    called = {c.func.attr for c in own_calls(fr.node) if isinstance(c.func, ast.Attribute) and
-              is_name(c.func.value, 'feature')}
+    called = {c.func.attr for c in ast.walk(inlined(ctx, fr)) if isinstance(c, ast.Call) and
+              isinstance(c.func, ast.Attribute) and is_name(c.func.value, 'feature')}
     rep.check(set(TEARDOWN_HOOKS) <= called and {'global_setup', 'late_setup'} <= called, R,
               'Runner.run invokes %s' % sorted(called), 'Runner.run no longer invokes the hooks '
               'the pairing relies on', key='hooks:invoked', func=fr.qualname, where=ctx.where(fr, fr.node))
@@ -290,14 +295,16 @@ def r3_warnings(ctx, rep, R='C18.R3'):
     rep.check(oky and 'contextmanager' in [x.split('.')[-1] for x in deco if x], R,
               '_enabled_warnings yields inside catch_warnings()', 'the context manager does not '
               'scope the filters', key='warnings:cm', func=ew.qualname, where=ctx.where(ew, ew.node))
+    from .common import inlined
     fr = m.func('runner.Runner.run')
-    hooks = [c for c in own_calls(fr.node) if isinstance(c.func, ast.Attribute) and
-             (is_name(c.func.value, 'feature') or dotted(c.func) == 'self.run_tests')]
+    frn = inlined(ctx, fr)
+    hooks = [c for c in ast.walk(frn) if isinstance(c, ast.Call) and isinstance(c.func, ast.Attribute)
+             and (is_name(c.func.value, 'feature') or dotted(c.func) == 'self.run_tests')]
     okw = bool(hooks)
     for c in hooks:
         node = c
         ins = False
-        while getattr(node, '_parent', None) is not None and node._parent is not fr.node:
+        while getattr(node, '_parent', None) is not None and node._parent is not frn:
             node = node._parent
             if isinstance(node, ast.With) and '_enabled_warnings' in norm(node.items[0].context_expr):
                 ins = True
